@@ -21,11 +21,13 @@ type VerifC10State struct {
 	Reader      string
 	ReaderOff   int64
 	ReaderID    string // identity of the open reader object
+	// walker wedge (see uio.VerifC10ReaderWedge)
+	WedgeLevel, WalkerDepth, BufLeft int
 	Root        string
 }
 
 func VerifC10Snapshot(dm *DagModifier) VerifC10State {
-	s := VerifC10State{WriteStart: dm.writeStart, CurWrOff: dm.curWrOff, Root: dm.curNode.Copy().Cid().String()}
+	s := VerifC10State{WedgeLevel: -1, WriteStart: dm.writeStart, CurWrOff: dm.curWrOff, Root: dm.curNode.Copy().Cid().String()}
 	if dm.wrBuf != nil {
 		s.HasBuf = true
 		s.Buf = append([]byte{}, dm.wrBuf.Bytes()...)
@@ -35,6 +37,7 @@ func VerifC10Snapshot(dm *DagModifier) VerifC10State {
 		root, st, off := uio.VerifC10ReaderState(dm.read)
 		s.ReaderOff = off
 		s.ReaderID = fmt.Sprintf("%p", dm.read)
+		s.WedgeLevel, s.WalkerDepth, s.BufLeft = uio.VerifC10ReaderWedge(dm.read)
 		s.Reader = st
 		s.ReaderStale = root != s.Root
 	}
@@ -48,7 +51,7 @@ func (s VerifC10State) String() string {
 	}
 	r := "none"
 	if s.ReaderOpen {
-		r = fmt.Sprintf("{%s stale=%v}", s.Reader, s.ReaderStale)
+		r = fmt.Sprintf("{%s wedge=%d/%d}", s.Reader, s.WedgeLevel, s.WalkerDepth)
 	}
 	return fmt.Sprintf("ws=%d cur=%d buf=%s rd=%s root=%s", s.WriteStart, s.CurWrOff, b, r, s.Root)
 }
